@@ -839,10 +839,18 @@ def run(c):
         "All theorems are about the record-level model; byte encoders are tied only by the correspondence.  "
         "float32 rounding is an abstract idempotent function in C11_binary (the harness passes numpy's conversion as a "
         "table).  Nonequidistant resize is proved for one call (C11_resize_neq_keeps_values), equidistant resize for "
-        "every sequence of calls.  Corpus: F7, F26, F39, F40, F41 inputs are ordinary cases.")
-    from .translate_c11 import gen_pi_axis
+        "every sequence of calls.  Corpus: F7, F26, F39, F40, F41 inputs are ordinary cases.  Translated on every run "
+        "(besides Gen/PiAxis): Gen/PiRecords = every statement of pi.Timeseries.__init__ on an existing file (both "
+        "passes over the series, stamps, forecast flooring and index, virtual ensemble, missVal, padding, units) proved "
+        "equal to C11.read, and __add_header + write() of a new file proved equal to C11.write (ElementTree calls are "
+        "table entries); Gen/PiParam = ParameterConfig.get / set proved equal to C11.pget / C11.pset; Gen/CsvCode = the "
+        "format list of csv.save, the converter table and NaN filling keys of csv.load, _string_to_float, proved equal "
+        "to the record-level CSV model (Model/C11Csv.lean; C11_csv_fmt, C11_csv_converters, C11_csv_cell_roundtrip).")
+    from .translate_c11 import gen_csv_code, gen_pi_axis, gen_pi_param, gen_pi_records
 
-    c.prove(extra=gen_pi_axis(c))  # + the time-axis kernels translated from the source
+    # + the time-axis kernels, the record-level reader / writer logic, ParameterConfig.get / set and csv.save /
+    # csv.load translated from the source
+    c.prove(extra=gen_pi_axis(c) + gen_pi_records(c) + gen_pi_param(c) + gen_csv_code(c))
     tmp = tempfile.mkdtemp(prefix="c11_")
     try:
         stream_roundtrip(c, c.n(120, 4000), tmp)
